@@ -44,6 +44,7 @@ fn main() {
         ("C10", "replay") => c10::replay(rest),
         ("C10", "drive") => c10::drive(rest),
         ("C11", "drive") => c11::drive(rest),
+        ("C11", "hooked") => c11::drive_hooked(rest),
         ("C12", "drive") => c12::drive_c12(rest),
         ("C13", "drive") => c12::drive_c13(rest),
         ("C14", "replay") => c14::replay(rest),
